@@ -437,14 +437,17 @@ fn str_post(m: &MockI, r: &Result<(), RuntimeError>, k: i64) {
 /// the value and kind VAL must yield for the whole number k (C06: the type holds the value)
 fn val_post(m: &MockI, r: &Result<(), RuntimeError>, k: i64) {
     assert!(r.is_ok(), "VAL of the text of a whole number must not fail");
-    let ok = match result_of(m, BuiltInFunction::Val) {
-        Some(Variant::VInteger(i)) => (-32768..=32767).contains(&k) && *i as i64 == k,
-        Some(Variant::VLong(l)) => !(-32768..=32767).contains(&k) && (-2147483648..=2147483647).contains(&k) && *l == k,
-        Some(Variant::VDouble(d)) => !(-2147483648..=2147483647).contains(&k) && *d == k as f64,
-        Some(Variant::VSingle(f)) => !(-2147483648..=2147483647).contains(&k) && *f as f64 == k as f64,
+    // C06 / C12: what VAL stores is a value of the function's STATIC type (the type the checker gives every use of VAL: no cast
+    // follows a use whose target has that type), and C17: numerically it is k
+    let q = TypeQualifier::from(&BuiltInFunction::Val);
+    let ok = match (q, result_of(m, BuiltInFunction::Val)) {
+        (TypeQualifier::HashDouble, Some(Variant::VDouble(d))) => *d == k as f64,
+        (TypeQualifier::BangSingle, Some(Variant::VSingle(f))) => *f as f64 == k as f64,
+        (TypeQualifier::AmpersandLong, Some(Variant::VLong(l))) => *l == k && (-2147483648..=2147483647).contains(&k),
+        (TypeQualifier::PercentInteger, Some(Variant::VInteger(i))) => *i as i64 == k && (-32768..=32767).contains(&k),
         _ => false,
     };
-    assert!(ok, "VAL(text of k) is not k in the numeric type that holds it (INTEGER iff -32768..32767, LONG iff 32-bit, else float)");
+    assert!(ok, "VAL(text of k) is not the value k in the function's static type");
     assert!(results_written(m) == 1, "VAL writes exactly its own result slot");
 }
 
